@@ -109,6 +109,9 @@ pub fn subject_module(i: usize, s: &Subj) -> String {
         let _ = writeln!(m, "    fn mk(v: &Val) -> Option<T> {{ Some(T::new(I::from_val(v))) }}");
     }
     let _ = writeln!(m, "    fn inn(t: T) -> Val {{ let i: I = t.into_inner(); i.to_val() }}");
+    if d.derives(Tr::Display) && d.derives(Tr::Clone) {
+        let _ = writeln!(m, "    fn inn_of(t: &T) -> I {{ t.clone().into_inner() }}");
+    }
     // const table
     let mut const_items = String::new();
     let mut const_rows = String::new();
@@ -226,6 +229,14 @@ pub fn subject_module(i: usize, s: &Subj) -> String {
         let _ = writeln!(b, "                if ptrs.len() >= 2 {{ w.ptr_same = Some(ptrs.iter().all(|p| *p == ptrs[0])); }}");
         if d.derives(Tr::Display) {
             let _ = writeln!(b, "                w.display = Some(t.to_string());");
+        }
+        if d.derives(Tr::Display) && d.derives(Tr::Clone) {
+            // formatter options (width, fill, alignment, precision, sign, zero padding) must reach the inner value
+            let _ = writeln!(b, "                {{ let i0: I = inn_of(&t);");
+            for spec in ["{:>8}", "{:<6}", "{:*^9}", "{:+}", "{:08}", "{:.2}", "{:10.3}", "{:#}", "{:>+12.4}"] {
+                let _ = writeln!(b, "                  w.display_fmt.push(({spec:?}.to_string(), format!({spec:?}, t), format!({spec:?}, i0)));");
+            }
+            let _ = writeln!(b, "                }}");
         }
         if d.derives(Tr::Debug) {
             let _ = writeln!(b, "                w.debug = Some(format!(\"{{:?}}\", t));");
